@@ -55,7 +55,7 @@ def family(path):
 def mk(file, fmt, force=False, mut=None, maxnodes=120, tree=True):
     m = dict(kind='none', off=0, n=0, val=0)
     m.update(mut or {})
-    return dict(file=file, format=fmt, force=force, mut=m, maxnodes=maxnodes, tree=tree)
+    return dict(file=file, format=fmt, force=force, mut=m, maxnodes=maxnodes, tree=tree, fields=False, cli=False)
 
 
 def build_jobs(ctx, known):
